@@ -1,5 +1,6 @@
 import Lean.Data.Json
 import NdcubeModel.Model.Cube
+import NdcubeModel.Model.Sequence
 
 /-!
 # Line-protocol driver
@@ -167,10 +168,67 @@ def opGetitem (j : Json) : R Json := do
       ("dropped", listJson (fun (p : Nat × Sym) =>
           Json.mkObj [("axis", natJson p.1), ("value", symJson p.2)]) (droppedWorld w its))]
 
+/-! ## sequences (C11, C12) -/
+
+def asSeq (j : Json) : R Seq := do
+  let shapes ← field j "shapes" >>= asList (asList asNat)
+  let ca ← match optField j "commonAxis" with
+    | none => pure none
+    | some c => (asNat c).map some
+  pure { shapes := shapes, commonAxis := ca }
+
+/-- `{"tuple":[...]}` or `{"single": item}` -/
+def asSeqIndex (j : Json) : R SeqIndex :=
+  match optField j "tuple" with
+  | some t => (asList asItem t).map SeqIndex.tuple
+  | none => do
+    let it ← field j "single" >>= asItem
+    pure (.single it)
+
+def pieceJson (p : Nat × Option (List Item)) : Json :=
+  Json.mkObj [("cube", natJson p.1), ("item", optJson (listJson itemJson) p.2)]
+
+def seqResultJson : SeqResult → Json
+  | .cube k it => Json.mkObj [("kind", .str "cube"), ("cube", natJson k), ("item", optJson (listJson itemJson) it)]
+  | .seq ps ca => Json.mkObj [("kind", .str "seq"), ("pieces", listJson pieceJson ps),
+      ("commonAxis", optJson natJson ca)]
+
+def exceptJson {α} (f : α → Json) : Except Err α → Json
+  | .ok a => f a
+  | .error e => errJson e
+
+def dimJson : Dim → Json
+  | .int n => natJson n
+  | .ragged ns => listJson natJson ns
+
+def opSeqGetitem (j : Json) : R Json := do
+  let s ← field j "seq" >>= asSeq
+  let ix ← field j "index" >>= asSeqIndex
+  pure (exceptJson seqResultJson (s.getitem ix))
+
+def opSeqExplode (j : Json) : R Json := do
+  let s ← field j "seq" >>= asSeq
+  let ax ← field j "axis" >>= asInt
+  pure (exceptJson seqResultJson (s.explode ax))
+
+def opIac (j : Json) : R Json := do
+  let s ← field j "seq" >>= asSeq
+  let ix ← field j "index" >>= asSeqIndex
+  pure (exceptJson seqResultJson (iacGetitem s ix))
+
+def opSeqShape (j : Json) : R Json := do
+  let s ← field j "seq" >>= asSeq
+  pure <| Json.mkObj [("shape", listJson dimJson s.shape),
+    ("cubeLikeShape", exceptJson (listJson natJson) s.cubeLikeShape)]
+
 def dispatch (j : Json) : R Json := do
   let op ← field j "op" >>= asStr
   match op with
   | "getitem" => opGetitem j
+  | "seq_getitem" => opSeqGetitem j
+  | "seq_explode" => opSeqExplode j
+  | "iac" => opIac j
+  | "seq_shape" => opSeqShape j
   | _ => .error s!"unknown op {op}"
 
 def handleLine (line : String) : String :=
